@@ -44,6 +44,7 @@ SPECIAL = ["&", "%", "#", "_", "$", "{", "}", "~", "\\", "<", ">"]
 MATH = ["$x+y$", "$a_1$"]
 URLS = ["http://a.b/c", "http://a.b/c_d", "www.x.org"]
 SIGMA = LETTERS + ACCENTED + PUNCT + SPECIAL + MATH + URLS
+SIGMA_CORE = ["a", " ", "\xe9", "&", "%", "$a_1$", "http://a.b/c", "~"]
 OPTIONS = [(True, True), (True, False), (False, True), (False, False)]  # (keep_math, enclose_urls)
 
 
@@ -54,6 +55,8 @@ def bounds(tier):
 def shards(tier):
     out = [("rt", s) for s in seq_shards(SIGMA, 3 if tier == "quick" else 4, prefix_len=2 if tier == "quick" else 2)]
     out += [("state", 0), ("scope", 0), ("contain", 0)]
+    # texts of middling length over a core alphabet: letter, blank, accented letter, &, %, math, URL, tilde
+    out += [("core", s) for s in seq_shards(SIGMA_CORE, 5 if tier == "quick" else 7, min_len=4 if tier == "quick" else 5, prefix_len=2)]
     out += [("big", n) for n in (bigdocs.SIZES_QUICK if tier == "quick" else bigdocs.SIZES_THOROUGH)]
     return out
 
@@ -549,6 +552,13 @@ def run_shard(shard, tier, acc):
     _DEC.clear()
     if shard[0] == "rt":
         for toks in seq_iter(SIGMA, shard[1]):
+            check_text(toks, acc)
+    elif shard[0] == "core":
+        for toks in seq_iter(SIGMA_CORE, shard[1]):
+            if url_cause("".join(toks), (True, True)):
+                acc.count("core_texts_with_the_known_url_cause_left_to_the_short_family")  # (F18: judged on texts of <= 3 / 4 tokens)
+                continue
+            acc.count("core_texts")
             check_text(toks, acc)
     elif shard[0] == "state":
         check_state(acc)
